@@ -164,6 +164,17 @@ func vxPermute(ts []ast.Term) []ast.Term {
 	case 3:
 		p := vxPerm3[vxChoose("order", 6)]
 		return []ast.Term{ts[p[0]], ts[p[1]], ts[p[2]]}
+	case 4:
+		// all 24 orders: choose the first, then a permutation of the remaining three
+		f := vxChoose("order_first", 4)
+		rest := make([]ast.Term, 0, 3)
+		for i, t := range ts {
+			if i != f {
+				rest = append(rest, t)
+			}
+		}
+		p := vxPerm3[vxChoose("order", 6)]
+		return []ast.Term{ts[f], rest[p[0]], rest[p[1]], rest[p[2]]}
 	}
 	return ts
 }
@@ -222,6 +233,10 @@ func vxSkeleton(s int) (ast.Clause, []ast.Atom) {
 		c := ast.Clause{Head: vxA("h", T(0, true))}
 		c.Premises = vxPermute([]ast.Term{vxA("p", T(1, true)), vxNot(vxA("q2", T(2, true), n(5))), vxA("q", T(3, true))})
 		return c, append(p1, vxA("q2", 1, 5), vxA("q2", 2, 6))
+	case 10: // h(.) :- p(.), !q(.), !r(.), pp(.,_): two negated atoms among two positive ones (delay and release of several negations)
+		c := ast.Clause{Head: vxA("h", T(0, false))}
+		c.Premises = vxPermute([]ast.Term{vxA("p", T(1, false)), vxNot(vxA("q", T(2, false))), vxNot(vxA("r", T(3, false))), vxA("pp", T(4, false), vxVar("_"))})
+		return c, append(p1, vxA("pp", 1, 2), vxA("pp", 2, 3), vxA("pp", 3, 3), vxA("r", 1), vxA("q", 3))
 	}
 	panic("skeleton")
 }
@@ -295,6 +310,17 @@ func vxClassify(c ast.Clause) {
 // VxC04Safety: all variable placements of clause skeleton S, in every premise order.
 func VxC04Safety() {
 	c, facts := vxSkeleton(vxParam("S", 0))
+	if n := vxParam("SYM", 0); n > 0 {
+		// the arguments of the first n base facts are arbitrary int64: acceptance must be
+		// safe, and the stored result exact, for every data set, not for one
+		for i := 0; i < n && i < len(facts); i++ {
+			args := make([]ast.BaseTerm, len(facts[i].Args))
+			for j := range args {
+				args[j] = ast.Number(vxInt64(fmt.Sprintf("d%d_%d", i, j)))
+			}
+			facts[i] = ast.Atom{Predicate: facts[i].Predicate, Args: args}
+		}
+	}
 	vxClassify(c)
 	safe := vxStaticSafe(c)
 	decls := map[ast.PredicateSym]ast.Decl{}
